@@ -22,6 +22,7 @@ func init() {
 			"R2 kind table: the mapping from OVMF section kind to SNP page type covers exactly the section-kind constants declared in ovmf/abi, maps them to {unmeasured, secret, cpuid, zero} respectively (constants checked by value) and rejects every other kind. " +
 			"R3 purity: no store / copy in the call closure of LaunchDigest and UnsignedSnp writes through the image parameter. " +
 			"R4 determinism: the closure of LaunchDigest calls no clock, random source or environment lookup and has no map iteration whose body extends the measurement. " +
+			"R5 AP reset vector: where the SEV-ES reset block is decoded, its first result is stored into VmcbSaveArea.Rip and its second into VmcbSeg.Base of an object other than the boot processor's VMSA, by stores that dominate every successful return (a proto merge or conditional copy, which skips zero halves, is not such a store). " +
 			"Not covered (value clauses): equality with the AMD digest chain, PAGE_INFO field values, VMSA defaults, GPA truncation constants, rejection of each malformed-metadata class. PAGE_INFO/VMSA layout is decided under C18.",
 		Assumptions: []string{"go/types, go/ssa, VTA call graph"},
 		Run:         runC04,
@@ -150,7 +151,10 @@ func runC04(c *Ctx) {
 	romTop := c.extConst(sevPkg, "RomTop")
 	high := c.P.Func("sev", "ProductHighAddress")
 	for f := range relevant {
-		for _, call := range callsIn(f, func(call ssa.CallInstruction) bool { id, ok := classify(call.(ssa.Instruction)); return ok && (id == evRom || id == evVmsa) }) {
+		for _, call := range callsIn(f, func(call ssa.CallInstruction) bool {
+			id, ok := classify(call.(ssa.Instruction))
+			return ok && (id == evRom || id == evVmsa)
+		}) {
 			id, _ := classify(call.(ssa.Instruction))
 			gpa := call.Common().Args[1]
 			data := call.Common().Args[2]
@@ -335,6 +339,127 @@ func runC04(c *Ctx) {
 	}
 	if badCalls+mapRanges == 0 {
 		c.S.OK("R4", "sev.LaunchDigest:deterministic", c.pos(ld.Pos()), fmt.Sprintf("no clock/random/environment call and no measuring map iteration in %d functions", len(clo)), true)
+	}
+
+	// ---------------- R5 AP reset vector ----------------
+	if getRV := c.fn("R5", "ovmf", "GetRipAndCsBaseFromSevEsResetBlock"); getRV != nil {
+		spbPkg := repoPath("proto/sev")
+		sl5 := flow.NewSlicer(c.P)
+		sl5.LiftParams = 1
+		nMakers := 0
+		var cloFns []*ssa.Function
+		for f := range clo {
+			if f != nil && f.Blocks != nil && load.FuncInRepo(f) {
+				cloFns = append(cloFns, f)
+			}
+		}
+		sort.Slice(cloFns, func(i, j int) bool { return cloFns[i].Pos() < cloFns[j].Pos() })
+		for _, f := range cloFns {
+			for _, call := range callsIn(f, func(call ssa.CallInstruction) bool { return call.Common().StaticCallee() == getRV }) {
+				nMakers++
+				cv := call.Value()
+				res := map[int]ssa.Value{}
+				for _, r := range nonDebugRefs(cv) {
+					if ex, ok := r.(*ssa.Extract); ok {
+						res[ex.Index] = ex
+					}
+				}
+				// the object parsed from the BSP template must not be the one that receives the AP reset vector
+				var bsp ssa.Value
+				for _, uc := range callsIn(f, func(cc ssa.CallInstruction) bool {
+					cal := cc.Common().StaticCallee()
+					return cal != nil && cal.Name() == "Unmarshal" && cal.Pkg != nil && strings.HasSuffix(cal.Pkg.Pkg.Path(), "prototext")
+				}) {
+					args := uc.Common().Args
+					if len(args) > 0 {
+						if mi, ok := args[len(args)-1].(*ssa.MakeInterface); ok {
+							bsp = mi.X
+						}
+					}
+				}
+				for _, w := range []struct {
+					idx        int
+					typ, field string
+					what       string
+				}{{0, "VmcbSaveArea", "Rip", "RIP"}, {1, "VmcbSeg", "Base", "CS base"}} {
+					src := res[w.idx]
+					construct := fmt.Sprintf("%s:AP %s", load.FuncName(f), w.what)
+					if src == nil {
+						c.S.Bad("R5", construct, c.pos(call.Pos()), fmt.Sprintf("result %d of the reset-block decoder (the %s of the AP reset vector) is not used", w.idx, w.what))
+						continue
+					}
+					var anchor *ssa.BasicBlock
+					onBsp := false
+					for _, g := range cloFns {
+						for _, b := range g.Blocks {
+							for _, in := range b.Instrs {
+								st, ok := in.(*ssa.Store)
+								if !ok {
+									continue
+								}
+								fa, ok := st.Addr.(*ssa.FieldAddr)
+								if !ok || flow.FieldName(fa) != w.field {
+									continue
+								}
+								pt, ok := fa.X.Type().Underlying().(*types.Pointer)
+								if !ok || !namedIs(pt.Elem(), spbPkg, w.typ) {
+									continue
+								}
+								if !sl5.Derives(st.Val, func(x ssa.Value) bool { return x == src }) {
+									continue
+								}
+								if g == f {
+									root := flow.PathOf(fa.X).Root
+									if bsp != nil && root == bsp {
+										onBsp = true
+										continue
+									}
+									// the object written must be one that is put into the returned list
+									listed := false
+									for _, r := range nonDebugRefs(root) {
+										if st2, ok := r.(*ssa.Store); ok && st2.Val == root {
+											if _, isElem := st2.Addr.(*ssa.IndexAddr); isElem {
+												listed = true
+											}
+										}
+									}
+									if !listed {
+										continue
+									}
+									anchor = b
+								} else {
+									for _, cs := range callsIn(f, func(cc ssa.CallInstruction) bool { return cc.Common().StaticCallee() == g }) {
+										anchor = cs.Block()
+									}
+								}
+							}
+						}
+					}
+					if anchor == nil {
+						msg := fmt.Sprintf("no store assigns the %s taken from the SEV-ES reset block to %s.%s of a VMSA that is put into the returned list (a merge from a temporary or a conditional copy skips a zero half of the reset address)", w.what, w.typ, w.field)
+						if onBsp {
+							msg = fmt.Sprintf("the %s of the reset vector is stored into the boot processor's VMSA, not into the additional VMSAs", w.what)
+						}
+						c.S.Bad("R5", construct, c.pos(call.Pos()), msg)
+						continue
+					}
+					// unconditional: every nil-error return after the decoder call is dominated by the store
+					must := true
+					for _, b := range f.Blocks {
+						ret, ok := b.Instrs[len(b.Instrs)-1].(*ssa.Return)
+						if !ok || len(ret.Results) == 0 || !isNilK(ret.Results[len(ret.Results)-1]) {
+							continue
+						}
+						if call.Block().Dominates(b) && !anchor.Dominates(b) {
+							must = false
+						}
+					}
+					c.S.Check(must, "R5", construct, c.pos(anchor.Instrs[0].Pos()), fmt.Sprintf("%s.%s of the additional VMSAs is stored from the reset block on every successful path", w.typ, w.field),
+						fmt.Sprintf("the store of the reset block's %s into the additional VMSAs is conditional: some successful return is reached without it", w.what))
+				}
+			}
+		}
+		c.S.Floor("R5", "functions preparing additional-processor VMSAs from the reset block", 1, nMakers)
 	}
 }
 
